@@ -86,6 +86,8 @@ type Obligation struct {
 	Props  []string
 	Goal   *Term
 	NFacts int
+	BasicOnly    bool   // use only facts of origin 0 (code and library models)
+	CrossChecked string // thorough tier: outcome of the second opinion
 	PC     *Term  // path condition of the point the obligation belongs to (facts guarded by a contradicting path condition are not used)
 	Gap    [2]int // path-guarded facts with index in [Gap[0], Gap[1]) belong to code executed after this point was reached: not used
 	Pos    token.Position
@@ -109,6 +111,9 @@ type FnCtx struct {
 	fc       *FuncContract
 	facts    []*Term
 	triggers []*Term
+	factTag     []byte // origin of fact i: 0 code / library model, 1 assumed contract clause (invariant, requires), 2 specification lemma or unfolding
+	curTag      byte
+	backCovers  []*Obligation // vacuity guards for loop back edges
 	factGuarded []bool // fact i is guarded by the path condition of the point it was generated at
 	factPC      []*Term // that path condition (nil: none)
 	symCache    map[int][]int // fact index -> constant symbols (unguarded facts only; see relevantFacts)
@@ -189,6 +194,7 @@ func (c *FnCtx) addFact(st *State, f *Term) {
 	c.triggers = append(c.triggers, nil)
 	c.factGuarded = append(c.factGuarded, !st.pc.IsTrue())
 	c.factPC = append(c.factPC, st.pc)
+	c.factTag = append(c.factTag, c.curTag)
 }
 
 // closeFact universally closes a fact over bound variables that occur free in it (facts generated while a
@@ -216,6 +222,7 @@ func (c *FnCtx) addFactT(st *State, trig, f *Term) {
 	c.triggers = append(c.triggers, trig)
 	c.factGuarded = append(c.factGuarded, !st.pc.IsTrue())
 	c.factPC = append(c.factPC, st.pc)
+	c.factTag = append(c.factTag, c.curTag)
 }
 
 func (c *FnCtx) addObl(st *State, kind, anchor string, goal *Term, pos token.Pos, src string) {
@@ -333,6 +340,7 @@ func (c *FnCtx) getCell(st *State, cell *Cell) *Term {
 				c.triggers = append(c.triggers, nil)
 				c.factGuarded = append(c.factGuarded, false)
 				c.factPC = append(c.factPC, nil)
+				c.factTag = append(c.factTag, c.curTag)
 			}
 		}
 	}
@@ -537,6 +545,7 @@ func (c *FnCtx) frameFacts(h, idx *Term) {
 				c.triggers = append(c.triggers, nil)
 				c.factGuarded = append(c.factGuarded, false)
 				c.factPC = append(c.factPC, nil)
+				c.factTag = append(c.factTag, c.curTag)
 			}
 			walk(li.old)
 		}
